@@ -8,14 +8,16 @@ import (
 )
 
 type Directive struct {
-	Exit       int    `json:"exit"`
-	Kill       bool   `json:"kill"`     // die by SIGKILL instead of exiting
-	SleepMs    int    `json:"sleep_ms"` // real sleep, widens overlap windows
-	Metrics    string `json:"metrics"`  // bytes appended to $METRICS_PATH
-	Patch      string `json:"patch"`
-	Admission  string `json:"admission"`
-	Conversion string `json:"conversion"` // literal bytes, or "@convert" / "@convert-drop-one"
-	Stdout     string `json:"stdout"`
+	Exit    int  `json:"exit"`
+	Kill    bool `json:"kill"`     // die by SIGKILL instead of exiting
+	SleepMs int  `json:"sleep_ms"` // real sleep, widens overlap windows
+	// SleepAfterMs: real sleep after the output files were written, before the process exits
+	SleepAfterMs int    `json:"sleep_after_ms"`
+	Metrics      string `json:"metrics"` // bytes appended to $METRICS_PATH
+	Patch        string `json:"patch"`
+	Admission    string `json:"admission"`
+	Conversion   string `json:"conversion"` // literal bytes, or "@convert" / "@convert-drop-one"
+	Stdout       string `json:"stdout"`
 }
 
 func Key(rel string) string {
